@@ -40,7 +40,7 @@ MetricFn(flavour, q) ==
     [] flavour = "diag" -> MDiag(TLCEval([i \in 1..N |-> QAdd(R(1), Pow2(q[i]))]))
     [] flavour = "dense" -> TLCEval([i \in 1..N |-> [j \in 1..N |->
                                QAdd(IF i = j THEN QAdd(R(1), Pow2(q[i])) ELSE R(0), <<1, 5>>)]])
-    [] flavour = "chol" ->
+    [] flavour \in {"chol", "cholneg"} ->      \* ("cholneg": the factor -L, the same metric)
          LET L == TLCEval([i \in 1..N |-> [j \in 1..N |->
                      IF i = j THEN QAdd(R(1), QMul(Half, Pow2(q[i])))
                      ELSE IF i = 2 /\ j = 1 THEN QMul(<<3, 10>>, q[1]) ELSE R(0)]])
